@@ -68,8 +68,14 @@ fn gen_case(s: &mut Src, max: usize) -> Case {
             layers[last].explicit_params = true;
         }
     }
-    // encode from the innermost layer outwards
-    let mut cur = data.clone();
+    let cur = encode_chain(&data, &layers, s);
+    let route = s.alt(2, &["route_direct", "route_stream", "route_file"]) as u8;
+    Case { data, layers, encoded: cur, route, labels: String::new() }
+}
+
+/// encode from the innermost layer outwards
+fn encode_chain(data: &[u8], layers: &[Layer], s: &mut Src) -> Vec<u8> {
+    let mut cur = data.to_vec();
     for l in layers.iter().rev() {
         if l.predictor == 2 { cur = codec::tiff_predict(&cur, &l.geo); }
         else if l.predictor >= 10 {
@@ -89,8 +95,7 @@ fn gen_case(s: &mut Src, max: usize) -> Case {
             _ => codec::flate_encode(&cur, s),
         };
     }
-    let route = s.alt(2, &["route_direct", "route_stream", "route_file"]) as u8;
-    Case { data, layers, encoded: cur, route, labels: String::new() }
+    cur
 }
 
 fn filter_of(l: &Layer) -> StreamFilter {
@@ -219,6 +224,56 @@ fn random_part(run: &Run) {
                 "encoded_hex": hex(&c3.encoded[..c3.encoded.len().min(400)]), "layers": format!("{:?}", c3.layers), "route": c3.route}));
         }
     });
+}
+
+/// Large, very repetitive payloads (a blank page image, a zero-filled table) through chains in which two or three filters compress:
+/// the stored stream is a few hundred bytes for megabytes of data, a ratio no single filter reaches.
+const BIG_CHAINS: [&[u8]; 14] = [&[4, 4], &[4, 2], &[3, 4], &[2, 4], &[3, 3], &[4, 3], &[1, 4, 4], &[4, 4, 4], &[0, 3, 2], &[4, 3, 2], &[3, 2], &[4], &[3], &[1, 4, 2]];
+const BIG_PAYLOADS: [&str; 5] = ["constant", "periodic", "blank-with-marks", "zero-rows-png", "counter-rows-tiff"];
+fn big_case(seed: u64, i: u64, size: usize) -> (Case, String) {
+    let chain = BIG_CHAINS[(i % 14) as usize];
+    let payload = ((i / 14) % 5) as usize;
+    let route = ((i / 70) % 3) as u8;
+    let mut s = Src::fresh(Rng::derive(seed, 55, i));
+    let mut layers: Vec<Layer> = chain.iter().map(|&k| Layer { kind: k, early: if k == 3 && (i / 210) % 2 == 1 { 0 } else { 1 }, predictor: 1, geo: Geometry { colors: 1, bpc: 8, columns: 1 }, explicit_params: false }).collect();
+    let last = layers.len() - 1;
+    let mut size = size;
+    let data: Vec<u8> = match payload {
+        0 => { let b = s.byte(); vec![b; size] }
+        1 => { let k = 2 + s.draw(14) as usize; let pat: Vec<u8> = (0..k).map(|_| s.byte()).collect(); (0..size).map(|j| pat[j % k]).collect() }
+        2 => { let mut d = vec![0xffu8; size]; let marks = 1 + s.draw(12) as usize; for _ in 0..marks { let at = s.draw(size as u32) as usize; let b = s.byte(); d[at] = b; } d }
+        3 | _ if layers[last].kind < 3 => { let b = s.byte(); (0..size).map(|j| if j % 4096 < 4 { (j / 4096) as u8 } else { b }).collect() }
+        3 => { let geo = Geometry { colors: 3, bpc: 8, columns: 1000 }; size -= size % geo.row_bytes(); layers[last].predictor = 12; layers[last].geo = geo; layers[last].explicit_params = true; vec![0u8; size] }
+        _ => { let geo = Geometry { colors: 1, bpc: 8, columns: 2048 }; size -= size % geo.row_bytes(); layers[last].predictor = 2; layers[last].geo = geo; layers[last].explicit_params = true; (0..size).map(|j| (j % 2048) as u8).collect() }
+    };
+    let encoded = encode_chain(&data, &layers, &mut s);
+    let name = format!("{}|{}|route{}", chain.iter().map(|&k| KINDS[k as usize]).collect::<Vec<_>>().join(">"), BIG_PAYLOADS[payload], route);
+    (Case { data, layers, encoded, route, labels: String::new() }, name)
+}
+fn big_part(run: &Run) {
+    let n: u64 = if run.quick() { 210 } else { 840 };
+    let best_ratio = std::sync::atomic::AtomicU64::new(0);
+    par_for(n, |i| {
+        // quick: 1-1.5 MiB; thorough also 4-12 MiB
+        let mut r = Rng::derive(run.seed, 56, i);
+        let size = if run.quick() || i < 420 { (1 << 20) + r.below(1 << 19) as usize } else { (4 << 20) + r.below(8 << 20) as usize };
+        let (c, name) = big_case(run.seed, i, size);
+        run.eval();
+        if let Err(e) = self_check(&c) { run.inconclusive(format!("big case {}: {}", i, e)); return; }
+        run.nontrivial(fnv(&c.encoded) ^ fnv(name.as_bytes()) ^ c.data.len() as u64);
+        run.count("big_cases");
+        best_ratio.fetch_max((c.data.len() / c.encoded.len().max(1)) as u64, std::sync::atomic::Ordering::Relaxed);
+        if c.data.len() / c.encoded.len().max(1) > 4096 { run.count("big_cases_ratio_over_4096"); }
+        if let Some((cls, detail)) = outcome(&c) {
+            // smallest failing size of the same case (halving)
+            let mut sz = size;
+            while sz > 4096 { let (c2, _) = big_case(run.seed, i, sz / 2); if matches!(outcome(&c2), Some((k, _)) if k == cls) { sz /= 2; } else { break; } }
+            let (c3, _) = big_case(run.seed, i, sz);
+            run.violation(&format!("C05|big|{}|{}", name, cls), &format!("{} (payload {} bytes, stored {} bytes; fails from {} bytes of payload on)", detail, c.data.len(), c.encoded.len(), c3.data.len()),
+                json!({"big_case": i, "size": sz, "layers": format!("{:?}", c3.layers), "route": c3.route, "stored_len": c3.encoded.len(), "payload_len": c3.data.len(), "encoded_hex": hex(&c3.encoded[..c3.encoded.len().min(400)])}));
+        }
+    });
+    run.add("big_best_ratio", best_ratio.load(std::sync::atomic::Ordering::Relaxed));
 }
 
 fn corruption_part(run: &Run) {
@@ -374,10 +429,11 @@ fn exhaustive_part(run: &Run) {
 }
 
 pub fn run(run: &Run) {
-    run.rule("random part: (data, chain of 1-3 filters from {ASCIIHex, ASCII85, RunLength, LZW early 0/1, Flate zlib/raw}, PNG/TIFF predictor with Colors 1-4, BPC {1,2,4,8,16}, Columns 1-70 on the innermost LZW/Flate layer) encoded by independent encoders with free spelling choices, decoded via enc::decode / Stream::data / a generated file; oracle = original bytes; failing cases are tape-shrunk and signed by minimal label set. exhaustive parts: hex digit pairs, run-length headers, 2^24 Paeth triples, ASCII85 groups/tails. corruption part: truncations and byte edits must give value or Err. distinct_nontrivial = distinct (encoded bytes, label set) pairs");
+    run.rule("random part: (data, chain of 1-3 filters from {ASCIIHex, ASCII85, RunLength, LZW early 0/1, Flate zlib/raw}, PNG/TIFF predictor with Colors 1-4, BPC {1,2,4,8,16}, Columns 1-70 on the innermost LZW/Flate layer) encoded by independent encoders with free spelling choices, decoded via enc::decode / Stream::data / a generated file; oracle = original bytes; failing cases are tape-shrunk and signed by minimal label set. big part: 1-12 MiB constant / periodic / nearly blank / predictor-friendly payloads through 14 chains in which up to three filters compress (stored size a few hundred bytes), all three routes. exhaustive parts: hex digit pairs, run-length headers, 2^24 Paeth triples, ASCII85 groups/tails. corruption part: truncations and byte edits must give value or Err. distinct_nontrivial = distinct (encoded bytes, label set) pairs");
     run.assume("reference encoders (harness/src/refimpl/codec.rs) emit spec-conformant data; checked against own decoders + miniz_oxide on every case (self_check)");
     exhaustive_part(run);
     random_part(run);
+    big_part(run);
     corruption_part(run);
     // thorough: the same quick workload once more under the AddressSanitizer build (memory errors in the library or its dependencies)
     if !run.quick() { crate::lanes::asan_rerun(run); }
